@@ -84,6 +84,21 @@ def oracle_files(ctx: Ctx, d: dict) -> None:
         ctx.violation("file written with order=True is not sorted", case, enc(ro), "sorted keys")
     elif spec.unordered(ruo) != spec.unordered(ru) or not _sorted_everywhere(ruo):
         ctx.violation("read(order=True) differs from read() beyond key order", case, enc(ruo), enc(ru))
+    # ordered append onto an existing file: the merged result is ordered at every level
+    try:
+        items = list(d.items())
+        half = {k: v for k, v in items[1::2]}
+        rest = {k: v for k, v in items[0::2]}
+        with impl.scratch() as td:
+            DictWriter.write(copy.deepcopy(half), td / "t", mode="w", order=True)
+            DictWriter.write(copy.deepcopy(rest), td / "t", mode="a", order=True)
+            rt = spec.strip_placeholders(impl.plain(DictReader.read(td / "t")))
+    except Exception as e:  # noqa: BLE001
+        ctx.violation("ordered append raises", case, repr(e), "no exception"); return
+    if not _sorted_everywhere(rt):
+        ctx.violation("file written with order=True in append mode is not sorted", case, enc(rt), "sorted keys")
+    elif spec.unordered(rt) != spec.unordered(spec.norm(spec.merge_first_wins(half, rest))):
+        ctx.violation("ordered append changed an association", case, enc(rt), enc(spec.norm(spec.merge_first_wins(half, rest))))
 
 
 def _sd_case(rng):
